@@ -437,10 +437,82 @@ def rule_R8(text):
     return text[:toks[e0].start] + new + text[toks[m_close + 4].end:]
 
 
+def rule_R9(text):
+    """E.iter().for_each(|v| B);   (closure parameter without a pattern)
+       ->  for __r in E.iter() { let v = __r; B; }"""
+    toks = tokenize(text)
+    hits = [i for i in range(len(toks))
+            if _seq(toks, i, [".", "iter", "(", ")", ".", "for_each", "(", "|"])
+            and toks[i + 8].kind == "id" and toks[i + 9].text == "|"]
+    if len(hits) != 1:
+        raise Unsupported("R9 matches %d times" % len(hits))
+    i = hits[0]
+    v = toks[i + 8].text
+    call_open = i + 6
+    call_close = match_close(toks, call_open)
+    if toks[call_close + 1].text != ";":
+        raise Unsupported("R9: for_each not used as a statement")
+    e0 = _expr_start(toks, i, 0)
+    E = text[toks[e0].start:toks[i].start]
+    B = text[toks[i + 9].end:toks[call_close].start].strip()
+    new = "for __r in %s.iter() { let %s = __r; %s; }" % (E.strip(), v, B)
+    return text[:toks[e0].start] + new + text[toks[call_close + 1].end:]
+
+
+def rule_R10(text):
+    """for &v in E {   ->  for __r in E.iter() { let v = *__r;     (E a plain variable: a slice or Vec)"""
+    toks = tokenize(text)
+    hits = [i for i in range(len(toks))
+            if _seq(toks, i, ["for", "&"]) and toks[i + 2].kind == "id" and toks[i + 3].text == "in"
+            and toks[i + 4].kind == "id" and toks[i + 5].text == "{"]
+    if len(hits) != 1:
+        raise Unsupported("R10 matches %d times" % len(hits))
+    i = hits[0]
+    v, E = toks[i + 2].text, toks[i + 4].text
+    new = "for __r in %s.iter() { let %s = *__r;" % (E, v)
+    return text[:toks[i].start] + new + text[toks[i + 5].end:]
+
+
+def rule_R11(text):
+    """E.iter().position(|v| P).map(|p| M);
+       -> { let mut __p: Option<usize> = None; let mut __i: usize = 0;
+            while __i < E.len() { let v = &E[__i]; if P { __p = Some(__i); break; } __i += 1; }
+            if let Some(p) = __p { M; } }"""
+    toks = tokenize(text)
+    hits = [i for i in range(len(toks))
+            if _seq(toks, i, [".", "iter", "(", ")", ".", "position", "(", "|"])
+            and toks[i + 8].kind == "id" and toks[i + 9].text == "|"]
+    if len(hits) != 1:
+        raise Unsupported("R11 matches %d times" % len(hits))
+    i = hits[0]
+    v = toks[i + 8].text
+    p_open = i + 6
+    p_close = match_close(toks, p_open)
+    if not _seq(toks, p_close + 1, [".", "map", "(", "|"]) or toks[p_close + 5].kind != "id" \
+            or toks[p_close + 6].text != "|":
+        raise Unsupported("R11: position not followed by map(|p| ..)")
+    pv = toks[p_close + 5].text
+    m_open = p_close + 3
+    m_close = match_close(toks, m_open)
+    if toks[m_close + 1].text != ";":
+        raise Unsupported("R11: not used as a statement")
+    e0 = _expr_start(toks, i, 0)
+    E = text[toks[e0].start:toks[i].start].strip()
+    P = text[toks[i + 9].end:toks[p_close].start].strip()
+    M = text[toks[p_close + 6].end:toks[m_close].start].strip()
+    new = ("{ let mut __p: Option<usize> = None; let mut __i: usize = 0; while __i < %s.len() { let %s = &%s[__i]; "
+           "if %s { __p = Some(__i); break; } __i += 1; } if let Some(%s) = __p { %s; } }" % (E, v, E, P, pv, M))
+    return text[:toks[e0].start] + new + text[toks[m_close + 1].end:]
+
+
 RULES = {"R1": rule_R1, "R2": rule_R2, "R3": rule_R3, "R4": rule_R4, "R5": rule_R5, "R6": rule_R6,
-         "R7": rule_R7, "R8": rule_R8}
+         "R7": rule_R7, "R8": rule_R8, "R9": rule_R9, "R10": rule_R10, "R11": rule_R11}
 
 RULE_TEXT = {
+    "R9": "E.iter().for_each(|v| B);  =>  for __r in E.iter() { let v = __r; B; }",
+    "R10": "for &v in E {  =>  for __r in E.iter() { let v = *__r;",
+    "R11": "E.iter().position(|v| P).map(|p| M);  =>  { let mut __p: Option<usize> = None; let mut __i: usize = 0; "
+           "while __i < E.len() { let v = &E[__i]; if P { __p = Some(__i); break; } __i += 1; } if let Some(p) = __p { M; } }",
     "R7": "E.iter().filter(|v| P).collect()  =>  ({ let mut __v = Vec::new(); for __r in E.iter() { let v = &__r; "
           "if P { __v.push(__r); } } __v })  (__v takes the type annotation of the enclosing `let x: T =`, if any)",
     "R8": "E.iter().map(|v| M).collect()  =>  ({ let mut __v = Vec::new(); for __r in E.iter() { let v = __r; "
